@@ -6,7 +6,7 @@ The dictionary (src/operator-info.in) is read at run time.
 (i)  Structural invariants on every <mrow> of every output of the same runs (sibling operators of one priority class or one
      n-ary family, nested infix/postfix rows bind at least as tightly as their parent, a leading left fence that has its
      match ends the row with it, no two adjacent operands)."""
-import itertools, json, re
+import itertools, json, os, re
 from common import Run, norm_ids, is_ok, is_err, is_panic, val, short
 import terms, mcx
 from terms import T, mi, mn, mo, row, el
@@ -20,7 +20,7 @@ INVISIBLE = {"\u2061": "apply", "\u2062": "times", "\u2063": "comma", "\u2064": 
 
 def dictionary():
     """op -> {'prefix'|'infix'|'postfix'|'left'|'right': priority}"""
-    text = open("/repo/src/operator-info.in", encoding="utf-8").read()
+    text = open(os.path.join(mcx.SRC, "operator-info.in"), encoding="utf-8").read()
     out = {}
     entries = []
     for line in text.split("\n"):
